@@ -236,6 +236,57 @@ def gro_load_stride(total: int, stride: int, b0: bool, b1: bool, b2: bool) -> bo
     return _load_stride("gro", total, conc(stride, 1, 4), (b0, b1, b2))
 
 
+# ------------------------------------------------------------------ load_pdb (all models are parsed up front; frame / stride / atoms select from them)
+
+class _FakePDB:
+    """stands for PDBTrajectoryFile after parsing: model i, atom j at (i, j, 0) angstrom, one CRYST1"""
+    distance_unit = "angstroms"
+
+    def __init__(self, total):
+        import numpy as np
+        self.positions = np.zeros((total, 3, 3))
+        self.positions[:, :, 0] = np.arange(total)[:, None]
+        self.positions[:, :, 1] = np.arange(3)[None, :]
+        self.topology = TOP3
+        self.unitcell_lengths, self.unitcell_angles = (50.0, 60.0, 70.0), (90.0, 90.0, 90.0)
+
+    def __enter__(self):
+        return self
+
+    def __exit__(self, *a):
+        return False
+
+
+def _load_pdb(total, stride, frame, bits):
+    import mdtraj.formats.pdb.pdbfile as _pdb
+    total = conc(total, 1, 6)
+    _pdb.PDBTrajectoryFile = lambda filename, *a, **k: _FakePDB(total)
+    sub = None if bits is None else _subset(3, bits)
+    t = _pdb.load_pdb("mem.pdb", stride=stride, atom_indices=sub, frame=frame, no_boxchk=True)
+    want = [frame % total] if frame is not None else list(range(0, total, stride or 1))
+    ids = [int(round(float(x) * 10)) for x in t.xyz[:, 0, 0]] if len(t) else []
+    atoms = [int(round(float(x) * 10)) for x in t.xyz[0, :, 1]] if len(t) else None
+    return (ids == want and atoms == (list(range(3)) if sub is None else sub) and [int(round(float(x))) for x in t.time] == want and t.topology.n_atoms == len(atoms)
+            and t.unitcell_lengths.shape == (len(want), 3) and abs(float(t.unitcell_lengths[0, 0]) - 5.0) < 1e-6)
+
+
+def pdb_load_frame(total: int, frame: int, use_atoms: bool, b0: bool, b1: bool, b2: bool) -> bool:
+    """
+    pre: 1 <= total <= 5 and -total <= frame < total and (b0 or b1 or b2)
+    post: __return__
+    """
+    return _load_pdb(total, None, conc(frame, -5, 4), (b0, b1, b2) if use_atoms else None)
+
+
+def pdb_load_stride(total: int, stride: int, use_atoms: bool, b0: bool, b1: bool, b2: bool) -> bool:
+    """
+    pre: 1 <= total <= 6 and 0 <= stride <= 4 and (b0 or b1 or b2)
+    post: __return__
+    """
+    stride = conc(stride, 0, 4)
+    return _load_pdb(total, None if stride == 0 else stride, None, (b0, b1, b2) if use_atoms else None)
+
+
 # ------------------------------------------------------------------ CrossHair entry points (generated)
 
 def h5_read_stride_step(total: int, pos: int, n: int, stride: int) -> bool:
